@@ -242,6 +242,7 @@ type PathCtx struct {
 	goQueue       []goTask
 	Stubs         map[string]bool
 	NondetMaps    bool
+	YieldOnWG     bool // sync.WaitGroup.Wait yields to the environment (tag "wg")
 	RandExtremes  bool // math/rand.Intn(n) explores only 0 and n-1
 	IntMode       bool
 	fresh         int
